@@ -1619,3 +1619,107 @@ B("C16-filter-tag-swapped", "C16", "C16:R-C16.3:keyspace::config::filter", "src/
                             v.write_u8(0).expect("cannot fail writing into a vec");""",
   """                        crate::config::BloomConstructionPolicy::BitsPerKey(bits) => {
                             v.write_u8(2).expect("cannot fail writing into a vec");""")
+
+# ======================================================================== C17
+LF = "src/locked_file.rs"
+B("C17-journal-before-version", "C17", "C17:R-C17.1:db::Database::recover", DB,
+  """        // Check version
+        Self::check_version(&config.path)?;
+
+        let lock_file = LockedFileGuard::try_acquire(&config.path.join(LOCK_FILE))?;
+""",
+  """        let lock_file = LockedFileGuard::try_acquire(&config.path.join(LOCK_FILE))?;
+
+        // Check version
+        Self::check_version(&config.path)?;
+""")
+B("C17-lock-after-journal-recover", "C17", "C17:R-C17.2:db::Database::recover:lock-dominates", DB,
+  """        let lock_file = LockedFileGuard::try_acquire(&config.path.join(LOCK_FILE))?;
+
+        // TODO:
+        // let recovery_mode = config.journal_recovery_mode;
+
+        // Reload active journal
+        let journal_recovery = Journal::recover(
+            &config.path,
+            config.journal_compression_type,
+            config.journal_compression_threshold,
+        )?;""",
+  """        // Reload active journal
+        let journal_recovery = Journal::recover(
+            &config.path,
+            config.journal_compression_type,
+            config.journal_compression_threshold,
+        )?;
+
+        let lock_file = LockedFileGuard::try_acquire(&config.path.join(LOCK_FILE))?;""")
+B("C17-version-accepts-non-v3", "C17", "C17:R-C17.1:db::Database::check_version:ok-only-for-v3", DB,
+  """            if version != FormatVersion::V3 {
+                return Err(crate::Error::InvalidVersion(Some(version)));
+            }""",
+  """            if version == FormatVersion::V1 {
+                return Err(crate::Error::InvalidVersion(Some(version)));
+            }""")
+B("C17-blocking-lock", "C17", "C17:R-C17.2:locked_file::LockedFileGuard::create_new", LF,
+  """        file.try_lock().map_err(|e| match e {
+            std::fs::TryLockError::Error(e) => {
+                log::error!("Failed to acquire database lock - if this is expected, you can try opening again (maybe wait a little)");
+                crate::Error::Io(e)
+            }
+            std::fs::TryLockError::WouldBlock => crate::Error::Locked,
+        })?;""",
+  """        file.lock()?;""")
+B("C17-guard-despite-lock-error", "C17", "C17:R-C17.2:locked_file::LockedFileGuard::try_acquire:guard-only", LF,
+  """                    std::fs::TryLockError::Error(e) => {
+                        log::error!("Failed to acquire database lock - if this is expected, you can try opening again (maybe wait a little)");
+                        return Err(crate::Error::Io(e));
+                    }""",
+  """                    std::fs::TryLockError::Error(e) => {
+                        log::error!("Failed to acquire database lock - if this is expected, you can try opening again (maybe wait a little): {e}");
+                        break;
+                    }""")
+B("C17-keyspace-own-lock-guard", "C17", "C17:R-C17.3", KS,
+  """            is_poisoned: db.is_poisoned.clone(),
+            lock_file: db.lock_file.clone(),
+            stats: db.stats.clone(),
+        }))
+    }""",
+  """            is_poisoned: db.is_poisoned.clone(),
+            lock_file: LockedFileGuard::try_acquire(&db.config.path.join("lock2")).unwrap_or_else(|_| db.lock_file.clone()),
+            stats: db.stats.clone(),
+        }))
+    }""")
+B("C17-drop-forgets-keyspaces-clear", "C17", "C17:R-C17.4:<db::DatabaseInner as std::ops::Drop>::drop:breaks-cycle-keyspaces", DB,
+  """        self.supervisor
+            .keyspaces
+            .write()
+            .expect("lock is poisoned")
+            .clear();
+        self.supervisor
+            .journal_manager""",
+  """        self.supervisor
+            .journal_manager""")
+B("C17-drop-no-wait", "C17", "C17:R-C17.4:<db::DatabaseInner as std::ops::Drop>::drop:waits-for-workers", DB,
+  """        while self
+            .active_thread_counter
+            .load(std::sync::atomic::Ordering::Relaxed)
+            > 0
+        {
+            let _ = self.worker_pool.sender.send(WorkerMessage::Close);
+            std::thread::sleep(std::time::Duration::from_micros(10));
+        }""",
+  """        if self
+            .active_thread_counter
+            .load(std::sync::atomic::Ordering::Relaxed)
+            > 0
+        {
+            let _ = self.worker_pool.sender.send(WorkerMessage::Close);
+            std::thread::sleep(std::time::Duration::from_micros(10));
+        }""")
+B("C17-worker-no-decrement", "C17", "C17:R-C17.4:worker_pool::WorkerPool::start::{closure#0}::{closure#0}", "src/worker_pool.rs",
+  """                                        log::debug!("Worker #{i} closes because DB is dropping");
+                                        thread_counter.fetch_sub(1, Relaxed);
+                                        return Ok(());""",
+  """                                        log::debug!("Worker #{i} closes because DB is dropping");
+                                        let _ = &thread_counter;
+                                        return Ok(());""")
